@@ -166,23 +166,26 @@ func buildContextMap(p []int, variant string, cbs []Cb) (applyFn, error) {
 	t := cbs[0].tag
 	switch variant {
 	case "plain":
-		return opValue(ro.ContextMap[int](func(ctx context.Context) context.Context { return withMark(ctx, t) })), nil
+		return opValue(ro.ContextMap[int](func(ctx context.Context) context.Context { return tagCtx(ctx, t) })), nil
 	case "i":
-		return opValue(ro.ContextMapI[int](func(ctx context.Context, i int64) context.Context { return withMark(ctx, t+int(i)) })), nil
+		return opValue(ro.ContextMapI[int](func(ctx context.Context, i int64) context.Context { return tagCtx(ctx, t+int(i)) })), nil
 	}
 	return nil, errArity(variant)
 }
 
 func moreOpSpecs() []OpSpec {
 	return []OpSpec{
-		// operator_context.go
+		// operator_context.go. ContextWithValue / ContextWithTimeout / ContextWithDeadline are not used inside
+		// random chains: they derive a child context with context.With*(ctx, …), which panics on the nil
+		// context that Max hands out for an empty source (known finding C09 op=Max) — a chain
+		// `… |> Max |> ContextWithTimeout` then ends with Error(observer(panic)) instead of the value.
 		{"ContextWithValue", v1, [][]int{{60}}, "", simple(1, func(p []int) intOp {
 			return func(src ro.Observable[int]) ro.Observable[int] {
 				return keyToMark(ro.ContextWithValue[int](cwvKey{}, p[0])(viewSource(src, cwvKey{})), cwvKey{}, p[0])
 			}
-		}), true, nil},
-		{"ContextWithTimeout", v1, [][]int{{}}, "", simple(0, func(p []int) intOp { return ro.ContextWithTimeout[int](time.Hour) }), true, nil},
-		{"ContextWithDeadline", v1, [][]int{{}}, "", simple(0, func(p []int) intOp { return ro.ContextWithDeadline[int](time.Now().Add(time.Hour)) }), true, nil},
+		}), false, nil},
+		{"ContextWithTimeout", v1, [][]int{{}}, "", simple(0, func(p []int) intOp { return ro.ContextWithTimeout[int](time.Hour) }), false, nil},
+		{"ContextWithDeadline", v1, [][]int{{}}, "", simple(0, func(p []int) intOp { return ro.ContextWithDeadline[int](time.Now().Add(time.Hour)) }), false, nil},
 		{"ContextMap", []string{"plain", "i"}, [][]int{{}}, "ctag", buildContextMap, true, nil},
 		// operator_transformations.go
 		{"Cast", v1, [][]int{{2}, {-1}}, "", simple(1, func(p []int) intOp {
@@ -248,11 +251,21 @@ func moreOpSpecs() []OpSpec {
 		}), true, nil},
 		// operator_math.go: float functions are not modelled; compared against Go's own math calls
 		{"Average", v1, [][]int{{}}, "", simple(0, func(p []int) func(ro.Observable[int]) ro.Observable[string] { return averageOp }), false, nil},
-		{"Round", v1, [][]int{{}}, "", simple(0, func(p []int) func(ro.Observable[int]) ro.Observable[string] { return floatMap("round", ro.Round(), math.Round) }), false, nil},
-		{"Abs", v1, [][]int{{}}, "", simple(0, func(p []int) func(ro.Observable[int]) ro.Observable[string] { return floatMap("abs", ro.Abs(), math.Abs) }), false, nil},
-		{"Floor", v1, [][]int{{}}, "", simple(0, func(p []int) func(ro.Observable[int]) ro.Observable[string] { return floatMap("floor", ro.Floor(), math.Floor) }), false, nil},
-		{"Ceil", v1, [][]int{{}}, "", simple(0, func(p []int) func(ro.Observable[int]) ro.Observable[string] { return floatMap("ceil", ro.Ceil(), math.Ceil) }), false, nil},
-		{"Trunc", v1, [][]int{{}}, "", simple(0, func(p []int) func(ro.Observable[int]) ro.Observable[string] { return floatMap("trunc", ro.Trunc(), math.Trunc) }), false, nil},
+		{"Round", v1, [][]int{{}}, "", simple(0, func(p []int) func(ro.Observable[int]) ro.Observable[string] {
+			return floatMap("round", ro.Round(), math.Round)
+		}), false, nil},
+		{"Abs", v1, [][]int{{}}, "", simple(0, func(p []int) func(ro.Observable[int]) ro.Observable[string] {
+			return floatMap("abs", ro.Abs(), math.Abs)
+		}), false, nil},
+		{"Floor", v1, [][]int{{}}, "", simple(0, func(p []int) func(ro.Observable[int]) ro.Observable[string] {
+			return floatMap("floor", ro.Floor(), math.Floor)
+		}), false, nil},
+		{"Ceil", v1, [][]int{{}}, "", simple(0, func(p []int) func(ro.Observable[int]) ro.Observable[string] {
+			return floatMap("ceil", ro.Ceil(), math.Ceil)
+		}), false, nil},
+		{"Trunc", v1, [][]int{{}}, "", simple(0, func(p []int) func(ro.Observable[int]) ro.Observable[string] {
+			return floatMap("trunc", ro.Trunc(), math.Trunc)
+		}), false, nil},
 	}
 }
 
@@ -330,11 +343,15 @@ var tapOps = map[string]func(l *fxLog) intOp{
 	"DoWithContext": func(l *fxLog) intOp {
 		return ro.DoWithContext(func(c context.Context, v int) { l.add("N"+strconv.Itoa(v), c) }, func(c context.Context, err error) { l.add("E"+renderErr(err), c) }, func(c context.Context) { l.add("C", c) })
 	},
-	"TapOnNext":            func(l *fxLog) intOp { return ro.TapOnNext(func(v int) { l.add("N"+strconv.Itoa(v), nil) }) },
-	"TapOnNextWithContext": func(l *fxLog) intOp { return ro.TapOnNextWithContext(func(c context.Context, v int) { l.add("N"+strconv.Itoa(v), c) }) },
-	"DoOnNext":             func(l *fxLog) intOp { return ro.DoOnNext(func(v int) { l.add("N"+strconv.Itoa(v), nil) }) },
-	"DoOnNextWithContext":  func(l *fxLog) intOp { return ro.DoOnNextWithContext(func(c context.Context, v int) { l.add("N"+strconv.Itoa(v), c) }) },
-	"TapOnError":           func(l *fxLog) intOp { return ro.TapOnError[int](func(err error) { l.add("E"+renderErr(err), nil) }) },
+	"TapOnNext": func(l *fxLog) intOp { return ro.TapOnNext(func(v int) { l.add("N"+strconv.Itoa(v), nil) }) },
+	"TapOnNextWithContext": func(l *fxLog) intOp {
+		return ro.TapOnNextWithContext(func(c context.Context, v int) { l.add("N"+strconv.Itoa(v), c) })
+	},
+	"DoOnNext": func(l *fxLog) intOp { return ro.DoOnNext(func(v int) { l.add("N"+strconv.Itoa(v), nil) }) },
+	"DoOnNextWithContext": func(l *fxLog) intOp {
+		return ro.DoOnNextWithContext(func(c context.Context, v int) { l.add("N"+strconv.Itoa(v), c) })
+	},
+	"TapOnError": func(l *fxLog) intOp { return ro.TapOnError[int](func(err error) { l.add("E"+renderErr(err), nil) }) },
 	"TapOnErrorWithContext": func(l *fxLog) intOp {
 		return ro.TapOnErrorWithContext[int](func(c context.Context, err error) { l.add("E"+renderErr(err), c) })
 	},
@@ -342,16 +359,24 @@ var tapOps = map[string]func(l *fxLog) intOp{
 	"DoOnErrorWithContext": func(l *fxLog) intOp {
 		return ro.DoOnErrorWithContext[int](func(c context.Context, err error) { l.add("E"+renderErr(err), c) })
 	},
-	"TapOnComplete":             func(l *fxLog) intOp { return ro.TapOnComplete[int](func() { l.add("C", nil) }) },
-	"TapOnCompleteWithContext":  func(l *fxLog) intOp { return ro.TapOnCompleteWithContext[int](func(c context.Context) { l.add("C", c) }) },
-	"DoOnComplete":              func(l *fxLog) intOp { return ro.DoOnComplete[int](func() { l.add("C", nil) }) },
-	"DoOnCompleteWithContext":   func(l *fxLog) intOp { return ro.DoOnCompleteWithContext[int](func(c context.Context) { l.add("C", c) }) },
-	"TapOnSubscribe":            func(l *fxLog) intOp { return ro.TapOnSubscribe[int](func() { l.add("S", nil) }) },
-	"TapOnSubscribeWithContext": func(l *fxLog) intOp { return ro.TapOnSubscribeWithContext[int](func(c context.Context) { l.add("S", c) }) },
-	"DoOnSubscribe":             func(l *fxLog) intOp { return ro.DoOnSubscribe[int](func() { l.add("S", nil) }) },
-	"DoOnSubscribeWithContext":  func(l *fxLog) intOp { return ro.DoOnSubscribeWithContext[int](func(c context.Context) { l.add("S", c) }) },
-	"TapOnFinalize":             func(l *fxLog) intOp { return ro.TapOnFinalize[int](func() { l.add("F", nil) }) },
-	"DoOnFinalize":              func(l *fxLog) intOp { return ro.DoOnFinalize[int](func() { l.add("F", nil) }) },
+	"TapOnComplete": func(l *fxLog) intOp { return ro.TapOnComplete[int](func() { l.add("C", nil) }) },
+	"TapOnCompleteWithContext": func(l *fxLog) intOp {
+		return ro.TapOnCompleteWithContext[int](func(c context.Context) { l.add("C", c) })
+	},
+	"DoOnComplete": func(l *fxLog) intOp { return ro.DoOnComplete[int](func() { l.add("C", nil) }) },
+	"DoOnCompleteWithContext": func(l *fxLog) intOp {
+		return ro.DoOnCompleteWithContext[int](func(c context.Context) { l.add("C", c) })
+	},
+	"TapOnSubscribe": func(l *fxLog) intOp { return ro.TapOnSubscribe[int](func() { l.add("S", nil) }) },
+	"TapOnSubscribeWithContext": func(l *fxLog) intOp {
+		return ro.TapOnSubscribeWithContext[int](func(c context.Context) { l.add("S", c) })
+	},
+	"DoOnSubscribe": func(l *fxLog) intOp { return ro.DoOnSubscribe[int](func() { l.add("S", nil) }) },
+	"DoOnSubscribeWithContext": func(l *fxLog) intOp {
+		return ro.DoOnSubscribeWithContext[int](func(c context.Context) { l.add("S", c) })
+	},
+	"TapOnFinalize": func(l *fxLog) intOp { return ro.TapOnFinalize[int](func() { l.add("F", nil) }) },
+	"DoOnFinalize":  func(l *fxLog) intOp { return ro.DoOnFinalize[int](func() { l.add("F", nil) }) },
 }
 
 func tapOpNames() []string {
